@@ -63,7 +63,7 @@ Entities(s) ==
   { <<"decl", FALSE>> } \cup
   (CASE s.kind = "function" -> {}
      [] s.kind = "class" -> { <<"meth", FALSE>>, <<"attr", FALSE>>, <<"pmeth", TRUE>>, <<"iattr", FALSE>>,
-                             <<"attr2", FALSE>>, <<"iattr2", FALSE>> }     \* attr2 / iattr2: second target of a tuple assignment whose first target is already defined
+                             <<"attr2", FALSE>>, <<"iattr2", FALSE>>, <<"ometh", FALSE>>, <<"prop", FALSE>> }     \* attr2 / iattr2: second target of a tuple assignment whose first target is already defined
      [] s.kind = "classinner" -> { <<"meth", FALSE>>, <<"inner", FALSE>>, <<"imeth", FALSE>>, <<"pinner", TRUE>> }
      [] s.kind = "enum" -> { <<"AA", FALSE>>, <<"BB", FALSE>> })
 Roles(s) == { e[1] : e \in Entities(s) }
